@@ -786,7 +786,7 @@ Proof.
     destruct ignorer as [ig|]; [|apply Ht].
     apply W_skipto_ign; [exact Hw|intros; apply W_fail; discriminate|exact Ht]. }
   destruct failon as [fo|]; [|exact Hafter].
-  unfold can_parse_next. apply W_try_parse_unwatched; [apply Hw|]. intros [l r|x|]; [apply HK| |apply W_ret0].
+  unfold can_parse_next. apply W_try_parse_unwatched; [apply Hw|]. intros [l r|x|]; [apply W_fail; discriminate| |apply W_ret0].
   destruct (is_pe (xk x) || is_index (xk x)); [exact Hafter|apply W_fail; discriminate].
 Qed.
 End WImpl.
@@ -1172,7 +1172,8 @@ Lemma skipto_scan_unfold fail f e target ignorer failon s loc0 tmploc K :
   if Nat.ltb (length s) tmploc then fail (mkx XParse (Z.of_nat loc0) (MNode (nid (attrs_of e)) 0) (Some (nid (attrs_of e))))
   else match failon with
        | Some fo => can_parse_next fail fo s tmploc false
-                      (fun b => if b then K tmploc else skipto_try fail f e target ignorer failon s loc0 tmploc K)
+                      (fun b => if b then fail (mkx XParse (Z.of_nat loc0) (MNode (nid (attrs_of e)) 0) (Some (nid (attrs_of e))))
+                                else skipto_try fail f e target ignorer failon s loc0 tmploc K)
        | None => skipto_try fail f e target ignorer failon s loc0 tmploc K
        end.
 Proof. reflexivity. Qed.
